@@ -24,7 +24,7 @@ KERNELS = {
     "C08": ["k_round_outward", "k_expand", "k_combine_lub", "k_intersect_glb", "k_xfrm_apply"],
     "C09": ["k_locspec_named", "k_locspec_edges", "k_calc_offset_abs", "k_calc_offset_ratio", "k_scalarspec"],
     "C11": ["k_extent_pair_se", "k_extent_pair_sm", "k_extent_pair_em", "k_extent_pair_sl", "k_extent_pair_el", "k_extent_pair_ml", "k_extent_insufficient", "k_circle_three_point"],
-    "C12": ["k_combine_lub", "k_intersect_glb", "k_union3", "k_trbl_abs", "k_trbl_ratio_25", "k_trbl_ratio_50"],
+    "C12": ["k_combine_lub", "k_intersect_glb", "k_union3", "k_trbl_abs"]   # percent margins (f32 multiplication by a symbolic base): CBMC needs > 6 min per ratio, decided by SX instead,
 }
 FN_NAME = {"eq": "eq", "ne": "ne", "r2p": "r2p", "p2r": "p2r"}
 
